@@ -468,7 +468,8 @@ class ExcelInPython:
         
     def _left(self, text, num_chars):
         if num_chars is None:
-            return text[0]
+            # one character by default; an empty text has none to give
+            num_chars = 1
         if num_chars < 0:
             return '#ERROR!'
         if not text:
@@ -534,7 +535,8 @@ class ExcelInPython:
     
     def _right(self, text, num_chars):
         if num_chars is None:
-            return text[len(text) - 1]
+            # one character by default; an empty text has none to give
+            num_chars = 1
         if num_chars < 0:
             return '#ERROR!'
         if not text:
